@@ -433,6 +433,9 @@ func (f *FnVC) assignTargets(env *Env, e SExpr) []target {
 								return out
 							}
 						}
+					} else if f.g.pkgNamed(pk.Name) == nil {
+						// the package is not part of this run: no code in scope can touch that type's fields
+						return nil
 					}
 				}
 			}
